@@ -325,6 +325,27 @@ def run(ctx):
                    "a call that raises (removing a file the tool never wrote because the run failed or was cancelled) leaves the temporary "
                    "files that come after it on disk", f_.lineno)
     ctx.floor("clean_up-with-tempfiles", n_cu, 5)
+    # ... and ONLY clean_up removes files: evaluate() runs on the way through a successful join and nowhere else - a file that is removed
+    # there (because "it is only needed for reading") stays behind after a failing exit code, unparsable output, a timeout or a cancel
+    n_rm, misplaced = 0, []
+    for rel_ in sorted(files):
+        if not rel_.endswith(".py"):
+            continue
+        for q_, f_ in ctx.src(rel_).funcs.items():
+            if any(q_ != q2_ and q_.startswith(q2_ + ".") and q2_ in ctx.src(rel_).funcs for q2_ in ctx.src(rel_).funcs):
+                continue            # nested functions are walked with their owners
+            for c_ in ast.walk(f_):
+                if isinstance(c_, ast.Call) and (call_name(c_) or "").split(".")[-1] in ("remove", "unlink", "cleanup_tempfile", "rmtree") \
+                        and not (isinstance(c_.func, ast.Attribute) and isinstance(c_.func.value, ast.Name) and c_.func.value.id not in ("os", "shutil", "self")):
+                    n_rm += 1
+                    if q_.split(".")[-1] not in ("clean_up", "cleanup_tempfile"):
+                        misplaced.append((rel_, q_, c_))
+    ctx.floor("file-removals-in-applications", n_rm, 20)
+    for rel_, q_, c_ in misplaced or [(None, None, None)]:
+        ctx.ob("R2.files-removed-in-clean-up-only", rel_ or "application/application.py", q_ or "<package>",
+               c_ if c_ is not None else f"{n_rm} removal(s), all inside clean_up() / cleanup_tempfile()", c_ is None,
+               "a file that is removed outside clean_up() is removed only on the way that reaches this statement: after a failed, cancelled or "
+               "timed-out run it stays behind", getattr(c_, "lineno", 1))
     # MAFFT labels the leaves of its guide tree `<n>_<name>`: the prefix that is cut off is a number of ANY length followed by `_`
     # (the pattern is a literal: it is evaluated on three labels)
     import re as _re
